@@ -458,8 +458,12 @@ def ffs_of(res):
 
 # --------------------------------------------------------------------------- attribution of a deviation to an open finding
 
-ERR_FINDING = {"index": "F14"}
-PRIORITY = ["F30", "F14"]
+# open (unrepaired) findings that FFMap models as deviation flags of DevAsIs; with none open the as-is runs are skipped and
+# every deviation from the P-layer is a violation.  To list one again: add its sig here, its error kind to ERR_FINDING, its
+# flag to DevAsIs in spec/FFMap.tla and a known_findings.d entry.
+OPEN = []
+ERR_FINDING = {}
+PRIORITY = []
 
 
 def attribute(fired, err=""):
